@@ -87,9 +87,9 @@ Proof.
   - constructor; [intros [] | constructor].
 Qed.
 
-Lemma handle_ans s e : pend_inv s -> ans_ok s (fst (handle_ev s e)) (snd (handle_ev s e)).
+Lemma handle_ans s e : pend_inv s -> nowrap1 s e -> ans_ok s (fst (handle_ev s e)) (snd (handle_ev s e)).
 Proof.
-  intros P. destruct e; cbn [handle_ev].
+  intros P NW. unfold nowrap1 in NW. destruct e; cbn [handle_ev]; cbn [draw_of] in NW.
   - apply ans_ok_same; auto.
   - unfold on_established. dmatch; cbn [fst snd]; apply ans_ok_same; auto; st_simpl;
       rewrite ?activity_next, ?activity_pend; st_simpl; rewrite ?add_chan_next, ?add_chan_pend; reflexivity.
@@ -108,7 +108,8 @@ Proof.
     + apply (ans_ok_filter s _ _ (fun x => negb (fst x =? id))); auto.
   - apply ans_ok_same; auto.
   - (* EOpen *)
-    unfold on_open. destruct (find_ctx p (s_ctxs s)) as [cx|]; [|apply ans_ok_same; auto].
+    unfold on_open. rewrite (N.mod_small _ _ NW).
+    destruct (find_ctx p (s_ctxs s)) as [cx|]; [|apply ans_ok_same; auto].
     destruct (h_act (c_prim cx) || (0 <? strong s (h_id (c_prim cx)))); [|apply ans_ok_same; auto].
     cbn [fst snd]. destruct P as [P1 P2]. unfold ans_ok, pend_inv, pend_ids in *. st_simpl.
     assert (E1 : s_next (if s_ka s
@@ -135,20 +136,45 @@ Proof.
   - dmatch; cbn [fst snd]; apply ans_ok_same; auto.
   - dmatch; cbn [fst snd]; apply ans_ok_same; auto.
   - dmatch; cbn [fst snd]; apply ans_ok_same; auto.
-  - cbn [fst snd]. destruct P as [P1 P2]. unfold ans_ok, pend_inv, pend_ids in *. st_simpl.
+  - rewrite (N.mod_small _ _ NW).
+    cbn [fst snd]. destruct P as [P1 P2]. unfold ans_ok, pend_inv, pend_ids in *. st_simpl.
     rewrite Forall_forall in *. split; [split|split; [|split; [|split]]]; auto.
     + intros x Hx. apply P2 in Hx. lia.
     + lia.
     + intros id [].
     + constructor.
   - dmatch; cbn [fst snd]; apply ans_ok_same; auto.
+  - (* EOpenFull: an id is drawn, nothing is put in flight *)
+    unfold on_open_full. rewrite (N.mod_small _ _ NW).
+    destruct (find_ctx p (s_ctxs s)) as [cx|]; [|apply ans_ok_same; auto].
+    destruct (h_act (c_prim cx) || (0 <? strong s (h_id (c_prim cx)))); [|apply ans_ok_same; auto].
+    cbn [fst snd]. destruct P as [P1 P2]. unfold ans_ok, pend_inv, pend_ids in *. st_simpl.
+    assert (E1 : s_next (if s_ka s
+                         then with_ctxs (activity (with_next s (s_next s + 1)) (p, h_id (c_prim cx)))
+                                (set_ctx (mkCtx p (mkH (h_id (c_prim cx)) true) (c_sec cx))
+                                   (s_ctxs (activity (with_next s (s_next s + 1)) (p, h_id (c_prim cx)))))
+                         else with_next s (s_next s + 1)) = s_next s + 1)
+      by (destruct (s_ka s); st_simpl; rewrite ?activity_next; reflexivity).
+    assert (E2 : s_pend (if s_ka s
+                         then with_ctxs (activity (with_next s (s_next s + 1)) (p, h_id (c_prim cx)))
+                                (set_ctx (mkCtx p (mkH (h_id (c_prim cx)) true) (c_sec cx))
+                                   (s_ctxs (activity (with_next s (s_next s + 1)) (p, h_id (c_prim cx)))))
+                         else with_next s (s_next s + 1)) = s_pend s)
+      by (destruct (s_ka s); st_simpl; rewrite ?activity_pend; reflexivity).
+    rewrite E1, E2. cbn [ans_ids flat_map app]. rewrite Forall_forall in *.
+    split; [split|split; [|split; [|split]]]; auto.
+    + intros x Hx. apply P2 in Hx. lia.
+    + lia.
+    + intros id [].
+    + constructor.
 Qed.
 
-Lemma step_ans s dt e : pend_inv s -> ans_ok s (fst (step s dt e)) (snd (step s dt e)).
+Lemma step_ans s dt e : pend_inv s -> nowrap1 s e -> ans_ok s (fst (step s dt e)) (snd (step s dt e)).
 Proof.
-  intros P. unfold step. set (s0 := with_now s (s_now s + dt)).
+  intros P NW. unfold step. set (s0 := with_now s (s_now s + dt)).
   assert (P0 : pend_inv s0) by exact P.
-  pose proof (handle_ans s0 e P0) as H. destruct (handle_ev s0 e) as [s1 o1]. cbn [fst snd] in H.
+  assert (NW0 : nowrap1 s0 e) by exact NW.
+  pose proof (handle_ans s0 e P0 NW0) as H. destruct (handle_ev s0 e) as [s1 o1]. cbn [fst snd] in H.
   set (sm := match ka_activity_of s0 e with
              | Some k => with_act s1 (kset k (s_now s1) (s_act s1)) | None => s1 end).
   assert (M1 : s_next sm = s_next s1) by (subst sm; destruct (ka_activity_of s0 e); reflexivity).
@@ -165,14 +191,15 @@ Qed.
 
 (* over a whole history: no identifier is answered twice, and every answered identifier was in
    flight at the start or was issued later *)
-Lemma answers_once tr : forall s, pend_inv s ->
+Lemma answers_once tr : forall s, pend_inv s -> nowrap s tr ->
   NoDup (ans_ids (concat (run s tr))) /\
   forall id, In id (ans_ids (concat (run s tr))) -> In id (pend_ids s) \/ s_next s <= id.
 Proof.
-  induction tr as [|[dt e] tr IH]; intros s P; cbn [run].
+  induction tr as [|[dt e] tr IH]; intros s P NW; cbn [run].
   - cbn. split; [constructor | intros id []].
-  - pose proof (step_ans s dt e P) as SA. destruct (step s dt e) as [s' os]. cbn [fst snd] in SA.
-    destruct SA as [P' [NX [A1 [A2 A3]]]]. destruct (IH s' P') as [I1 I2].
+  - cbn [nowrap] in NW. destruct NW as [NW1 NW2].
+    pose proof (step_ans s dt e P NW1) as SA. destruct (step s dt e) as [s' os]. cbn [fst snd] in *.
+    destruct SA as [P' [NX [A1 [A2 A3]]]]. destruct (IH s' P' NW2) as [I1 I2].
     cbn [concat]. unfold ans_ids in *. rewrite flat_map_app. split.
     + apply NoDup_app'; auto. intros x Hx C. destruct (A1 x Hx) as [X1 X2].
       destruct P as [_ PF]. rewrite Forall_forall in PF. apply PF in X1.
@@ -242,6 +269,7 @@ Proof.
   - left. dmatch; cbn [fst]; st_simpl; exact PF.
   - left; exact PF.
   - left. dmatch; cbn [fst]; st_simpl; exact PF.
+  - left. unfold on_open_full. dmatch; cbn [fst]; st_simpl; rewrite ?activity_pend; st_simpl; exact PF.
 Qed.
 
 Lemma step_pend_ans s dt e :
@@ -304,36 +332,38 @@ Proof.
   set (s0 := with_now s (s_now s + dt)) in *.
   assert (Q2 : forall i, In i (map fst (s_pend s0)) -> i < s_next s0).
   { intros i Hi. rewrite Forall_forall in P2. apply (P2 i Hi). }
-  clearbody s0. destruct e; cbn [handle_ev] in *; unfold on_established, on_closed in *;
+  clearbody s0. destruct e; cbn [handle_ev] in *; unfold on_established, on_closed, on_open_full in *;
     try (revert HC; dmatch; cbn [snd In]; intuition discriminate).
   unfold on_open in *. destruct (find_ctx p (s_ctxs s0)) as [cx|]; [|cbn [snd In] in HC; intuition discriminate].
   destruct (h_act (c_prim cx) || (0 <? strong s0 (h_id (c_prim cx)))); [|cbn [snd In] in HC; intuition discriminate].
   cbn [fst snd In] in *. destruct HC as [HC|[HC|[]]]; [discriminate|]. inversion HC; subst c id.
   exists p. st_simpl.
   assert (E2 : s_pend (if s_ka s0
-                       then with_ctxs (activity (with_next s0 (s_next s0 + 1)) (p, h_id (c_prim cx)))
+                       then with_ctxs (activity (with_next s0 ((s_next s0 + 1) mod ID_MOD)) (p, h_id (c_prim cx)))
                               (set_ctx (mkCtx p (mkH (h_id (c_prim cx)) true) (c_sec cx))
-                                 (s_ctxs (activity (with_next s0 (s_next s0 + 1)) (p, h_id (c_prim cx)))))
-                       else with_next s0 (s_next s0 + 1)) = s_pend s0)
+                                 (s_ctxs (activity (with_next s0 ((s_next s0 + 1) mod ID_MOD)) (p, h_id (c_prim cx)))))
+                       else with_next s0 ((s_next s0 + 1) mod ID_MOD)) = s_pend s0)
     by (destruct (s_ka s0); st_simpl; rewrite ?activity_pend; reflexivity).
   rewrite E2. apply pfind_app_new. intros C. apply Q2 in C. lia.
 Qed.
 
-Lemma pend_inv_final tr : forall s, pend_inv s -> pend_inv (final s tr).
+Lemma pend_inv_final tr : forall s, pend_inv s -> nowrap s tr -> pend_inv (final s tr).
 Proof.
-  induction tr as [|[dt e] tr IH]; intros s P; cbn [final]; [exact P|].
-  apply IH. apply (step_ans s dt e P).
+  induction tr as [|[dt e] tr IH]; intros s P NW; cbn [final]; [exact P|].
+  cbn [nowrap] in NW. destruct NW as [NW1 NW2].
+  apply IH; [apply (step_ans s dt e P NW1) | exact NW2].
 Qed.
 
 (* every accepted open ends in exactly one of: still in flight, answered, connection closed after it *)
 Lemma opened_resolution tr : forall s c id,
-  pend_inv s -> In (OCmd c id) (concat (run s tr)) ->
+  pend_inv s -> nowrap s tr -> In (OCmd c id) (concat (run s tr)) ->
   (exists p, pfind id (s_pend (final s tr)) = Some (p, c)) \/
   In id (ans_ids (concat (run s tr))) \/
   exists dt p, In (dt, EClosed p c) tr.
 Proof.
-  induction tr as [|[dt e] tr IH]; intros s c id P H; cbn [run final] in *; [destruct H|].
-  pose proof (step_accept s dt e c id P) as SA. pose proof (step_ans s dt e P) as [P' _].
+  induction tr as [|[dt e] tr IH]; intros s c id P NW H; cbn [run final] in *; [destruct H|].
+  cbn [nowrap] in NW. destruct NW as [NW1 NW2].
+  pose proof (step_accept s dt e c id P) as SA. pose proof (step_ans s dt e P NW1) as [P' _].
   destruct (step s dt e) as [s' os] eqn:ST. cbn [fst snd concat] in *.
   unfold ans_ids. rewrite flat_map_app. fold (ans_ids os) (ans_ids (concat (run s' tr))).
   apply in_app_or in H. destruct H as [H|H].
@@ -342,7 +372,7 @@ Proof.
     + left. exists p. exact G.
     + right; left. apply in_or_app; right; exact G.
     + right; right. exists dt', p'. right; exact G.
-  - destruct (IH s' c id P' H) as [G|[G|[dt' [p' G]]]].
+  - destruct (IH s' c id P' NW2 H) as [G|[G|[dt' [p' G]]]].
     + left; exact G.
     + right; left. apply in_or_app; right; exact G.
     + right; right. exists dt', p'. right; exact G.
@@ -351,16 +381,154 @@ Qed.
 (* ... and under the environment hypothesis that nothing is left unanswered (the connection task
    answers every command it received unless it terminates): exactly one answer, or closed *)
 Lemma open_answered tr ka T n0 c id :
+  nowrap (init ka T n0) tr ->
   In (OCmd c id) (concat (run (init ka T n0) tr)) ->
   pfind id (s_pend (final (init ka T n0) tr)) = None ->
   (count_occ N.eq_dec (ans_ids (concat (run (init ka T n0) tr))) id <= 1)%nat /\
   (count_occ N.eq_dec (ans_ids (concat (run (init ka T n0) tr))) id = 1%nat \/
    exists dt p, In (dt, EClosed p c) tr).
 Proof.
-  intros H NF. destruct (answers_once tr (init ka T n0) (pend_inv_init ka T n0)) as [ND _].
+  intros NW H NF. destruct (answers_once tr (init ka T n0) (pend_inv_init ka T n0) NW) as [ND _].
   split; [apply NoDup_count_occ; exact ND|].
-  destruct (opened_resolution tr (init ka T n0) c id (pend_inv_init ka T n0) H) as [[p G]|[G|G]].
+  destruct (opened_resolution tr (init ka T n0) c id (pend_inv_init ka T n0) NW H) as [[p G]|[G|G]].
   - congruence.
   - left. apply NoDup_count_occ'; assumption.
   - right; exact G.
+Qed.
+
+(* ------------------------------------------------------------------ once the answer event has
+   been delivered to the service (after the open), the open is resolved for good *)
+Lemma final_app tr1 : forall s tr2, final s (tr1 ++ tr2) = final (final s tr1) tr2.
+Proof. induction tr1 as [|[dt e] tr1 IH]; intros s tr2; cbn [app final]; [reflexivity | apply IH]. Qed.
+Lemma run_app tr1 : forall s tr2,
+  concat (run s (tr1 ++ tr2)) = concat (run s tr1) ++ concat (run (final s tr1) tr2).
+Proof.
+  induction tr1 as [|[dt e] tr1 IH]; intros s tr2; cbn [app run final]; [reflexivity|].
+  destruct (step s dt e) as [s' os] eqn:ST. cbn [concat fst]. rewrite IH, app_assoc. reflexivity.
+Qed.
+
+Lemma pfind_none_notin id l : pfind id l = None -> ~ In id (map fst l).
+Proof.
+  induction l as [|[i k] t IH]; cbn [pfind map fst]; [intros _ []|].
+  destruct (i =? id) eqn:E; [discriminate|]. intros H [C|C]; [apply N.eqb_neq in E; contradiction | exact (IH H C)].
+Qed.
+Lemma notin_pfind_none id l : ~ In id (map fst l) -> pfind id l = None.
+Proof.
+  induction l as [|[i k] t IH]; cbn [pfind map fst]; [reflexivity|]. intros H.
+  destruct (i =? id) eqn:E; [apply N.eqb_eq in E; exfalso; apply H; left; exact E|].
+  apply IH. intros C. apply H. right; exact C.
+Qed.
+
+Lemma nowrap_app tr1 : forall s tr2, nowrap s (tr1 ++ tr2) <-> nowrap s tr1 /\ nowrap (final s tr1) tr2.
+Proof.
+  induction tr1 as [|[dt e] tr1 IH]; intros s tr2; cbn [app nowrap final]; [tauto|].
+  rewrite IH. tauto.
+Qed.
+
+Lemma notin_pend_stays tr : forall s id,
+  pend_inv s -> nowrap s tr -> id < s_next s -> ~ In id (pend_ids s) ->
+  ~ In id (pend_ids (final s tr)) /\ id < s_next (final s tr).
+Proof.
+  induction tr as [|[dt e] tr IH]; intros s id P NW L N; cbn [final]; [auto|].
+  cbn [nowrap] in NW. destruct NW as [NW1 NW2].
+  destruct (step_ans s dt e P NW1) as [P' [NX [_ [A2 _]]]]. apply IH; [exact P' | exact NW2 | lia|].
+  intros C. destruct (A2 id C) as [H|H]; [contradiction | lia].
+Qed.
+
+Lemma answer_step_clears s dt a id :
+  (exists m, a = ESubOut id m) \/ a = ESubFail id ->
+  ~ In id (pend_ids (fst (step s dt a))).
+Proof.
+  intros H. unfold pend_ids. destruct (step_pend_ans s dt a) as [E _]. rewrite E.
+  set (s0 := with_now s (s_now s + dt)). destruct H as [[m ->]| ->]; cbn [handle_ev].
+  - destruct (pfind id (s_pend s0)) as [[p c]|] eqn:F; cbn [fst].
+    + rewrite (proj2 (sub_opened_view _ p c m)). st_simpl. apply pdel_ids_notin.
+    + apply pfind_none_notin. exact F.
+  - cbn [fst]. st_simpl. apply pdel_ids_notin.
+Qed.
+
+Lemma ocmd_issued tr : forall s c id,
+  pend_inv s -> nowrap s tr -> In (OCmd c id) (concat (run s tr)) -> id < s_next (final s tr).
+Proof.
+  induction tr as [|[dt e] tr IH]; intros s c id P NW H; cbn [run final] in *; [destruct H|].
+  cbn [nowrap] in NW. destruct NW as [NW1 NW2].
+  pose proof (step_accept s dt e c id P) as SA. pose proof (step_ans s dt e P NW1) as [P' _].
+  destruct (step s dt e) as [s' os] eqn:ST. cbn [fst snd concat] in *.
+  apply in_app_or in H. destruct H as [H|H]; [|eapply IH; eauto].
+  destruct (SA H) as [p PF]. apply pfind_ids in PF.
+  assert (L : id < s_next s') by (destruct P' as [_ Q]; rewrite Forall_forall in Q; apply Q; exact PF).
+  clear -P' L NW2. revert s' P' L NW2. induction tr as [|[dt e] tr IH]; intros s' P' L NW2; cbn [final]; [exact L|].
+  cbn [nowrap] in NW2. destruct NW2 as [N1 N2].
+  destruct (step_ans s' dt e P' N1) as [P'' [NX _]]. apply IH; [exact P'' | lia | exact N2].
+Qed.
+
+Lemma answer_event_resolves tr1 dt a tr2 ka T n0 c id :
+  nowrap (init ka T n0) (tr1 ++ (dt, a) :: tr2) ->
+  In (OCmd c id) (concat (run (init ka T n0) tr1)) ->
+  (exists m, a = ESubOut id m) \/ a = ESubFail id ->
+  pfind id (s_pend (final (init ka T n0) (tr1 ++ (dt, a) :: tr2))) = None.
+Proof.
+  intros NW H A. rewrite final_app. cbn [final].
+  apply nowrap_app in NW. destruct NW as [NWa NWb]. cbn [nowrap] in NWb. destruct NWb as [NW1 NW2].
+  set (s1 := final (init ka T n0) tr1) in *.
+  assert (P1 : pend_inv s1) by (apply pend_inv_final; [apply pend_inv_init | exact NWa]).
+  assert (L1 : id < s_next s1) by (eapply ocmd_issued; [apply pend_inv_init | exact NWa | exact H]).
+  destruct (step_ans s1 dt a P1 NW1) as [P2 [NX _]].
+  apply notin_pfind_none.
+  apply (notin_pend_stays tr2 (fst (step s1 dt a)) id P2 NW2); [lia|].
+  apply answer_step_clears. exact A.
+Qed.
+
+(* the open is answered exactly once, or its connection was reported closed — given only that
+   the answer event reaches the service after the open was made *)
+Lemma open_answered_delivered tr1 dt a tr2 ka T n0 c id :
+  nowrap (init ka T n0) (tr1 ++ (dt, a) :: tr2) ->
+  In (OCmd c id) (concat (run (init ka T n0) tr1)) ->
+  (exists m, a = ESubOut id m) \/ a = ESubFail id ->
+  let tr := tr1 ++ (dt, a) :: tr2 in
+  (count_occ N.eq_dec (ans_ids (concat (run (init ka T n0) tr))) id <= 1)%nat /\
+  (count_occ N.eq_dec (ans_ids (concat (run (init ka T n0) tr))) id = 1%nat \/
+   exists dt' p, In (dt', EClosed p c) tr).
+Proof.
+  intros NW H A tr. apply open_answered.
+  - exact NW.
+  - unfold tr. rewrite run_app. apply in_or_app. left. exact H.
+  - eapply answer_event_resolves; eassumption.
+Qed.
+
+(* ------------------------------------------------------------------ ChannelClogged: the open is
+   refused after an identifier was drawn; nothing is put in flight, no command is issued and no
+   identifier is returned *)
+Lemma open_full_effect s dt p :
+  s_pend (fst (step s dt (EOpenFull p))) = s_pend s /\
+  ret_ids (snd (step s dt (EOpenFull p))) = [] /\
+  (forall c id, ~ In (OCmd c id) (snd (step s dt (EOpenFull p)))) /\
+  (exists r, In (ORet r 0) (snd (step s dt (EOpenFull p))) /\ (r = 1 \/ r = 2 \/ r = 3)).
+Proof.
+  destruct (step_pend_ans s dt (EOpenFull p)) as [E1 _]. rewrite E1.
+  unfold step. set (s0 := with_now s (s_now s + dt)).
+  assert (P0 : s_pend s0 = s_pend s) by reflexivity.
+  pose proof (handle_cmd s0 (EOpenFull p)) as HC.
+  destruct (handle_ev s0 (EOpenFull p)) as [s1 o1] eqn:HE. cbn [fst snd] in *.
+  set (sm := match ka_activity_of s0 (EOpenFull p) with
+             | Some k => with_act s1 (kset k (s_now s1) (s_act s1)) | None => s1 end).
+  pose proof (poll_outs_down sm) as PD. destruct (poll_timers sm) as [s2 o2]. cbn [fst snd] in *.
+  assert (R2 : ret_ids o2 = []).
+  { apply flat_map_nil. intros x Hx. destruct (PD x Hx) as [q [c ->]]. reflexivity. }
+  cbn [handle_ev] in HE. unfold on_open_full in HE.
+  assert (G : s_pend s1 = s_pend s0 /\ ret_ids o1 = [] /\
+              exists r, In (ORet r 0) o1 /\ (r = 1 \/ r = 2 \/ r = 3)).
+  { destruct (find_ctx p (s_ctxs s0)) as [cx|].
+    - destruct (h_act (c_prim cx) || (0 <? strong s0 (h_id (c_prim cx)))).
+      + inversion HE; subst. split; [|split; [reflexivity | exists 3; split; [left; reflexivity | auto]]].
+        st_simpl. destruct (s_ka s); st_simpl; rewrite ?activity_pend; st_simpl; reflexivity.
+      + inversion HE; subst. split; [reflexivity|]. split; [reflexivity | exists 2; split; [left; reflexivity | auto]].
+    - inversion HE; subst. split; [reflexivity|]. split; [reflexivity | exists 1; split; [left; reflexivity | auto]]. }
+  destruct G as [G1 [G2 [r [G3 G4]]]]. split; [rewrite G1; exact P0|]. split.
+  - unfold ret_ids in *. rewrite flat_map_app, G2, R2. reflexivity.
+  - split.
+    + intros c id H. apply in_app_or in H. destruct H as [H|H].
+      * destruct (HC c id H) as [q [cx [E _]]]. discriminate.
+      * destruct (PD _ H) as [q [c' E]]. discriminate.
+    + exists r. split; [apply in_or_app; left; exact G3 | exact G4].
 Qed.
